@@ -87,6 +87,8 @@ DESCR = {
  "C19-d": ("a valid legacy ext/local pair resets the 'catch-all already seen' memory", "legacy list: catch-all, then an explicit pair, then a second catch-all of the same family"),
  "C20-c": ("replacePairRemote no longer copies deferredNominationValue", "controlled agent: renomination from an unsignalled address (prflx + deferred), AddRemoteCandidate supersedes it before the triggered check is answered, target has lower priority"),
  "C20-d": ("controlled side compares nomination values with 24-bit serial-number arithmetic", "two values at least 2^23 apart (timestamp/stride generators, jump to 0xFFFFFF)"),
+ "C18-a": ("site-local filter narrowed from fec0::/10 to fec0::/16", "an interface address in fec1::…feff:: with an IPv6 network type enabled"),
+ "C18-b": ("GatherCandidates no longer supersedes a pending (not yet started) cycle", "a second GatherCandidates executed after the first was accepted but before its goroutine marked the state Gathering"),
 }
 res = {}
 for ln in open('/verif/.work/confirm_results.txt'):
